@@ -147,9 +147,8 @@ def names_for(fmt, vals, rng):
         return [f"{chr(97 + (p * 7) % 26)}{p}" for p in perm]
     if fmt == "dict_int":
         # distinct integers that overlap with the range of the values but are unrelated to them
-        pool = list(range(0, max(list(vals) + [0]) + n + 3))
-        rng.shuffle(pool)
-        return pool[:n]
+        top = min(max(list(vals) + [0]) + n + 3, 10 ** 6)
+        return rng.sample(range(0, top), n)
     raise ValueError(fmt)
 
 
